@@ -316,7 +316,7 @@ func visitInstr(fr *frame, instr ssa.Instruction) continuation {
 		fr.set(instr, sliceToArrayPointer(i, instr.Type(), instr.X.Type(), fr.get(instr.X)))
 
 	case *ssa.MakeInterface:
-		fr.set(instr, iface{t: instr.X.Type(), v: fr.get(instr.X)})
+		fr.set(instr, iface{t: types.Unalias(instr.X.Type()), v: fr.get(instr.X)})
 
 	case *ssa.Extract:
 		fr.set(instr, fr.get(instr.Tuple).(tuple)[instr.Index])
